@@ -394,7 +394,8 @@ func g16RewriteGuard(r *Repo, rep *Report) {
 // per-run freshness flag). Necessary condition checked: something reachable from (*call).HasUndefined / newCall /
 // getInputTypes refers to the derived-file classification (the constant derivedFilename, the finder's derived list, or an
 // object named after it). If nothing does, stale signatures flow into registration unchecked.
-func g17StaleArgTypes(r *Repo, rep *Report) {
+func g17StaleArgTypes(c *Ctx) {
+	r, rep := c.Repo, c.Rep
 	roots := []string{"derive.(*call).HasUndefined", "derive.newCall", "derive.getInputTypes"}
 	seen := map[*types.Func]bool{}
 	var queue []*FuncInfo
@@ -475,12 +476,23 @@ func g17StaleArgTypes(r *Repo, rep *Report) {
 		}
 	}
 	rep.analysed("arg_type_functions", n)
+	if h := staleHidden(c); h.goFiles {
+		// the previous output is not loaded in the first pass at all (G22): no type can come from it
+		rep.pass("G17")
+		rep.sample(map[string]string{"rule": "G17 argument types cannot come from the previous output", "how": "the first load hides derived.gen.go from the initial packages (G22)"})
+		return
+	}
 	if consults != "" {
 		rep.pass("G17")
 		rep.sample(map[string]string{"rule": "G17 argument types consult the derived-file classification", "how": consults})
 		return
 	}
 	fi := r.lookup(roots[0])
+	if h := staleHidden(c); h.hook {
+		rep.fail(Finding{Rule: "G17", Key: "G17|stale-arg-types", Where: []string{r.pos(fi.Decl.Pos())},
+			Msg: "the loader's FindPackage hook does not keep the previous derived.gen.go out of the first pass for every package (see the G22 finding), and nothing that decides whether a call's argument types are known yet looks at whether they come from that file: for deriveSort(deriveKeys(m)) the type of deriveKeys(m) is read from the previous output, so after m is retyped the outer function is generated for the stale type"})
+		return
+	}
 	rep.fail(Finding{Rule: "G17", Key: "G17|stale-arg-types", Where: []string{r.pos(fi.Decl.Pos())},
 		Msg: "the argument types a call is registered with come from TypeOf(arg) and nothing that decides whether they are known yet looks at whether the argument contains a call into derived.gen.go: for deriveSort(deriveKeys(m)) the type of deriveKeys(m) is read from the previous output, so after m is retyped the outer function is generated for the stale type (one run does not suffice and the result does not type-check)"})
 }
@@ -568,7 +580,14 @@ func sortStrings(l []string) {
 // directory's package and every later run ends with "no initial packages were loaded" until the file is deleted by hand.
 // Necessary condition for the interrupted-write clause of C07: the new content replaces the old file atomically (it is
 // written to another name and renamed), so that no prefix ever exists under the name derived.gen.go.
-func g19AtomicPrint(r *Repo, rep *Report) {
+func g19AtomicPrint(c *Ctx) {
+	r, rep := c.Repo, c.Rep
+	if h := staleHidden(c); h.invalid {
+		// a remnant is never read: the first load hides the derived file and does not treat an unreadable one as an error (G22)
+		rep.pass("G19")
+		rep.sample(map[string]string{"rule": "G19 a truncated remnant of derived.gen.go is never read", "how": "G22 (a)-(d)"})
+		return
+	}
 	fi := r.lookup("derive.(*pkg).Print")
 	if fi == nil {
 		rep.fail(Finding{Rule: "G19", Key: "G19|print|missing", Kind: "undecided", Msg: "(*pkg).Print not found"})
@@ -596,6 +615,9 @@ func g19AtomicPrint(r *Repo, rep *Report) {
 		rep.fail(Finding{Rule: "G19", Key: "G19|print|shape", Kind: "undecided", Where: []string{r.pos(fi.Decl.Pos())}, Msg: "(*pkg).Print does not create the derived file with os.Create/OpenFile/WriteFile: the rule needs re-confirmation"})
 	case renames:
 		rep.pass("G19")
+	case staleHidden(c).hook:
+		rep.fail(Finding{Rule: "G19", Key: "G19|print|non-atomic", Where: []string{r.pos(fi.Decl.Pos())},
+			Msg: "(*pkg).Print truncates derived.gen.go and writes it in steps, and the loader's FindPackage hook does not make a remnant harmless (it must hide the derived file on every path and must not report a derived file that go/build cannot read as an error; see G22): a prefix of the output that ends before the package clause is complete makes every later run fail"})
 	default:
 		rep.fail(Finding{Rule: "G19", Key: "G19|print|non-atomic", Where: []string{r.pos(fi.Decl.Pos())},
 			Msg: "(*pkg).Print truncates derived.gen.go and writes it in steps, without writing to another name and renaming: an interrupted run leaves a prefix of the output under the real name, and a prefix that ends before the package clause is complete makes every later run fail"})
